@@ -4,8 +4,8 @@
    metastable lists of every length and for arbitrary rate functions (respecting equality of
    rationals); libm's sqrt is an arbitrary function except in the frame theorem. *)
 Require Import Cherab.Common.Qx.
-Require Import Cherab.Model.C05_BeamModels Cherab.Model.C05_Check.
-Require Import Cherab.Proofs.C05_Mean Cherab.Proofs.C05_Loops Cherab.Proofs.C05_Emission Cherab.Proofs.C05_Check.
+Require Import Cherab.Model.C05_BeamModels Cherab.Model.C05_Check Cherab.Model.C05_History.
+Require Import Cherab.Proofs.C05_Mean Cherab.Proofs.C05_Loops Cherab.Proofs.C05_Emission Cherab.Proofs.C05_Check Cherab.Proofs.C05_History.
 Open Scope Q_scope.
 
 (* q = (q1 + sum k_i q_i)/(1 + sum k_i), k_i >= 0: q lies between the smallest and the largest of
@@ -140,6 +140,71 @@ Definition ex_rates : list (Z * list Q * list (list Q)) :=
    (3%Z, [5; 0; 0; 0; 0; 0], [[1 # 8; 0; 0; 0]; [1 # 8; 0; 0; 0]])].
 Definition ex_K : consts := mkConsts 1 2 (1 # 12).
 Definition ex_sqrt (x : Q) : Q := if Qeq_bool x 4 then 2 else if Qeq_bool x 9 then 3 else 0.
+(* the bounded-mean clause with nothing left as a hypothesis about populations: for non-negative densities,
+   charges >= 0, a line of an ion (charge of the line >= 0) and a provider that supplies one non-negative
+   population coefficient per species of the composition, q lies between the smallest and largest coefficient *)
+Theorem C05_cx_rate_bounded_for_nonnegative_tables :
+  forall sqrt K sps bfield lel lch rates beam_len beam_z att dir energy r,
+  rates_proper rates ->
+  (forall s, In s sps -> (0 <= charge s)%Z /\ 0 <= dens s) ->
+  (0 <= lch)%Z ->
+  (forall rt, In rt rates -> length (snd rt) = length sps /\ forall c, In c (snd rt) -> forall e n t, 0 <= c e n t) ->
+  cx_emission sqrt K sps bfield lel lch rates beam_len beam_z att dir energy = AddLine r ->
+  exists rs ground q,
+    find_species sps lel (lch + 1) = Some rs /\ ground_of rates = Some ground /\
+    r == c_k4pi K * beam_density beam_len beam_z att * dens rs * q /\
+    let a5 := spec_args5 sqrt K sps bfield (beam_velocity sqrt K dir energy) rs in
+    lmin (apply5 ground a5) (map (fun ex => apply5 (fst ex) a5) (excited_of rates)) <= q
+    <= lmax (apply5 ground a5) (map (fun ex => apply5 (fst ex) a5) (excited_of rates)).
+Proof. exact cx_emission_bounded_nonneg. Qed.
+Print Assumptions C05_cx_rate_bounded_for_nonnegative_tables.
+
+(* "at any point" of any plasma reached through the public mutators: live BeamCXLine / BeamEmissionLine objects
+   with their caches give, after EVERY history of mutations and evaluations, what freshly built models give on
+   the current configuration -- provided the mutators of the six cache-relevant kinds (add of a new key, add
+   of an existing key, set, clear, line, provider) clear both caches.  That proviso is a boolean over a table
+   which the harness extracts from the running implementation on every run (coq/Gen/C05/Tie.v, table_ok). *)
+Theorem C05_history_independence :
+  forall (P : Type) sqrt K tbl, table_ok tbl = true ->
+  forall evs c, run_live P sqrt K tbl evs (mkState P c None None) = run_fresh P sqrt K evs c.
+Proof. exact history_independence. Qed.
+Print Assumptions C05_history_independence.
+
+(* Composition.add: a replaced entry keeps its position, a new entry is appended; a lookup of the added key
+   returns the added object and every other key is untouched *)
+Theorem C05_composition_add_semantics :
+  forall (P : Type) (o : sobj P) l,
+  map (fun x => (o_el P x, o_ch P x)) (comp_add P o l) =
+    (if existsb (fun x => same_key P x o) l then map (fun x => (o_el P x, o_ch P x)) l
+     else map (fun x => (o_el P x, o_ch P x)) l ++ [(o_el P o, o_ch P o)]) /\
+  forall q, find (fun x => same_key P x q) (comp_add P o l) =
+            if same_key P o q then Some o else find (fun x => same_key P x q) l.
+Proof. intros; split; [apply comp_add_keys | intros; apply comp_add_lookup]. Qed.
+Print Assumptions C05_composition_add_semantics.
+
+(* the sqrt used when Coq runs the model on the correspondence cases is a square root to 2^-64 *)
+Theorem C05_sqrt_oracle_bound :
+  forall x, 0 < x ->
+  let s := sqrt_approx x in
+  0 <= s /\ s * s <= x /\ x < (s + 1 / inject_Z (2 ^ sqrt_bits)) * (s + 1 / inject_Z (2 ^ sqrt_bits)).
+Proof. exact sqrt_approx_spec. Qed.
+Print Assumptions C05_sqrt_oracle_bound.
+
+(* the proviso of C05_history_independence is needed: with a table in which replacing an existing species does
+   not clear the caches (kind 1), a two-evaluation history on a one-species plasma distinguishes the live
+   BeamEmissionLine from a fresh one *)
+Definition ex_obj (n : Q) : sobj unit := mkSobj unit 1 1 (fun _ => (n, 10, (0, 0, 0))).
+Definition ex_prov : provider := mkProvider [] (fun _ _ _ _ _ _ => 0) (fun _ _ _ _ _ => 1).
+Definition ex_cfg : config unit := mkConfig unit [ex_obj 1] (fun _ => (0, 0, 1)) 1 0 ex_prov 2 1 4.
+Definition ex_tbl (k : Z) : bool * bool := if (k =? 1)%Z then (false, false) else (true, true).
+Definition ex_evs : list (event unit) :=
+  [ObserveBES unit tt 1 (0, 0, 3); Mutate unit (MAdd unit (ex_obj 2)); ObserveBES unit tt 1 (0, 0, 3)].
+Example C05_stale_cache_refuted :
+  table_ok ex_tbl = false /\
+  map (fun o => Qred (radiance_of o)) (run_live unit ex_sqrt ex_K ex_tbl ex_evs (mkState unit ex_cfg None None)) = [1 # 12; 1 # 12] /\
+  map (fun o => Qred (radiance_of o)) (run_fresh unit ex_sqrt ex_K ex_evs ex_cfg) = [1 # 12; 1 # 6].
+Proof. repeat split; vm_compute; reflexivity. Qed.
+
 Example C05_nonvacuous :
   (exists r, cx_emission ex_sqrt ex_K ex_sps (0, 0, 9) 7 5 (map mkrate ex_rates) 3 1 4 (0, 0, 3) 4 = AddLine r /\ 0 < r) /\
   rates_proper (map mkrate ex_rates) /\
